@@ -31,6 +31,7 @@ import Driver.BlockChk
 import Driver.EventChk
 import Driver.RefChk
 import DispatchVerif.Core.BlockCnt
+import DispatchVerif.Core.TimerCfg
 /-! `dvdriver`: line-protocol driver over the Lean models — the same definitions the theorems are about.
     One operation per line in, one canonical result per line out; the C harnesses answer the same lines with
     the real library and the check diffs the two streams. -/
@@ -262,6 +263,11 @@ def handle (line : String) : String :=
     match w.toNat?, nu.toNat?, nm.toNat?, nw.toNat? with
     | some w, some a, some b, some c => toString (TimeP.sinceEpoch w a b c)
     | _, _, _, _ => "bad-op"
+  | ["TC", st, iv, lw, fc, nu, nm, nw] =>      -- _dispatch_timer_config_create
+    match st.toNat?, iv.toNat?, lw.toNat?, nu.toNat?, nm.toNat?, nw.toNat? with
+    | some st, some iv, some lw, some nu, some nm, some nw =>
+      TimerCfg.answer st iv lw (if fc = "0" then .up else if fc = "1" then .mono else .wall) nu nm nw
+    | _, _, _, _, _, _ => "bad-op"
   | ["BPW", pre, set, post] =>      -- a block object executed `pre` times, the counter word optionally set, `post` more executions
     match pre.toNat?, post.toNat? with
     | some a, some c => BlockCnt.answer a (if set = "-" then none else set.toNat?) c
